@@ -495,6 +495,8 @@ func f(foo int, ss ...string) (n int, err error) {
 	probe(foo)
 	probe(2)
 	fmt.Println(1, foo, x+1)
+	fmt.Println(1, 2, foo, foo)
+	_ = []int{3, 4, foo, foo, 5, 6}
 	va, vb = vb, va
 	var e interface{} = foo
 	if v, ok := e.(int); ok && v > 0 {
